@@ -90,6 +90,19 @@ func (fc *FnCtx) doCall(st *State, c *ssa.CallCommon, in ssa.Instruction, site s
 		if _, isPtr := a.Type().Underlying().(*types.Pointer); isPtr {
 			fc.havocPointee(st, a, args[i])
 		}
+		// a function value handed to an unspecified callee (rand.Shuffle's swap, ...) may be
+		// called any number of times: everything it can write is unknown afterwards
+		if args[i].Fn != nil && args[i].Fn.Fn != nil && len(args[i].Fn.Fn.Blocks) > 0 {
+			ws := fc.E.fnWrites(fc, args[i].Fn.Fn, 0)
+			for _, n := range sortedHeapNames(ws) {
+				hv := ws[n]
+				if hv.Name == "$next" {
+					continue
+				}
+				st.Heap[hv.Name] = fc.S.Fresh(hv.Name+".cb", hv.Sort)
+			}
+			fc.notes.Assumed["callback passed to unspecified "+name+": every heap it may write is treated as unknown afterwards"] = true
+		}
 	}
 	return fc.freshResults(st, resTypes, callee.Name(), false)
 }
